@@ -127,7 +127,7 @@ func Sentence(r *rand.Rand, g *ast.Grammar) string {
 	var b strings.Builder
 	var derive func(e ast.Expression, depth int)
 	derive = func(e ast.Expression, depth int) {
-		if b.Len() > 200 {
+		if b.Len() > 60 {
 			return
 		}
 		switch e := e.(type) {
